@@ -21,6 +21,9 @@ def check_world(world, top):
             if refmodel.entry_fault(e, model.root):
                 continue
             cfg0 = refmodel.entry_config(e, model.root)
+            if os.path.splitext(cfg0["file"])[1] in (".F90", ".f90"):
+                skipped += 1
+                continue
             if cfg0["compiler"] not in ("gcc", "g++", "clang", "clang++"):
                 # multi-pass / implicit-define compilers are CBI conventions, not gcc behaviour
                 skipped += 1
